@@ -5,6 +5,10 @@ ROOT = os.path.dirname(os.path.dirname(os.path.abspath(__file__)))
 MC = "model_checking"
 checks = [
  # id, level, engine, technique, text, note, design_ref
+ ("C01", MC, "E1",
+  "bounded-exhaustive enumeration of operand catalogue^2 x translations x type casts x 4 operations on the real code vs exact even-odd membership of margin-checked lattice points and slab-decomposition areas",
+  "Every pair of catalogue operands (boxes, triangles, L, C, pentagon, holes, multi-polygons, island in hole; both windings) under every translation of the offset grid, in every receiver/argument type combination and all four operations, is executed; the result's even-odd region must contain exactly the lattice points the boolean combination contains and have exactly the true area; rings closed; empty only for zero true area.",
+  "Trusts mc/exact (integer predicates, float slab decomposition on exactly representable inputs). Shapes beyond the catalogue and degenerate (touching) pairs are outside; the latter by the property itself.", "4/C01"),
  ("C02", MC, "E1",
   "bounded-exhaustive enumeration of all small-grid rings / two-ring polygons / two-member multi-polygons / boxes x the full half-integer query grid on the real Within vs an integer-arithmetic oracle; affine images for points with exactly verified margin",
   "Every ring of 3-4 vertices over {0..3}^2 (repeated vertices, self-intersections, closed and unclosed), every two-ring polygon and two-member multi-polygon over the 504 triangles of {0..2}^2, every box, at every half-integer grid point; the compound receivers over all short vertex lists. Exact because all coordinates are small (half-)integers.",
